@@ -76,14 +76,114 @@ def cases(tier, rng):
             ops += ["send r10.33", "send r10.34", "wire a", "wire b"]
             out.append("p%d.a.stall sock %s / %s" % (k, sock, " / ".join(ops)))
             k += 1
+    out += fan_cases(tier, rng, k)
+    return out
+
+
+def fan_cases(tier, rng, k):
+    """PUB / XPUB fan-out with one scripted connection per subscriber, compared with Model/PubFan.v: subscriptions per
+    subscriber, standing answers and queued answers changing at arbitrary points, messages around the high-water mark."""
+    out = []
+    topics = [b"", b"A", b"AB", b"B", b"C"]
+    for sock in ("PUB", "XPUB"):
+        for _ in range(70 if tier == "quick" else 1200):
+            ns = rng.randint(2, 3)
+            names = "abc"[:ns]
+            big = rng.random() < 0.6
+            ops = ["attach %s SUB" % c for c in names]
+
+            def feed(c, frames_list):
+                o = ["feed %s %s" % (c, W.tok(b"".join(W.msg(fr) for fr in frames_list)))]
+                return o + (["settle"] if sock == "PUB" else ["recv"] * len(frames_list))
+            for c in names:
+                subs = [[b"\x01" + rng.choice(topics)] for _ in range(rng.randint(0, 2))] or ([[b"\x01"]] if rng.random() < 0.7 else [])
+                if subs:
+                    ops += feed(c, subs)
+            n = rng.randint(4, 14)
+            for i in range(n):
+                r = rng.random()
+                c = rng.choice(names)
+                if r < 0.5:
+                    first = rng.choice([b"A", b"AB", b"ABC", b"B", b"", b"Z"]) + bytes([0x30 + i])
+                    if big:
+                        body = W.tok(first) + "+r%d.%02x" % (rng.choice([65536, 70000, 130000, 131072, 132000, 300]), 0x40 + i)
+                    else:
+                        body = W.tok(first) + "+r%d.%02x" % (rng.choice([0, 1, 255, 256, 600]) + 1, 0x40 + i)
+                    if rng.random() < 0.25:
+                        body += ";" + W.tok(b"tail") + (";-" if rng.random() < 0.3 else "")
+                    ops.append("send " + body)
+                elif r < 0.7:
+                    lim = rng.choice([20000, 50000, 70000]) if big else rng.choice([1, 7, 100])
+                    ops.append("wmode %s %s" % (c, rng.choice(["stall", "stall", "all", "limit=%d" % lim, "broken=BrokenPipe",
+                                                                "broken=ConnectionReset", "zero"])))
+                elif r < 0.8:
+                    ws = [20000, 70000, 200000] if big else [1, 7, 100]
+                    plan = [rng.choice(["p", "w%d" % rng.choice(ws), "w%d" % rng.choice(ws), "z", "e:ConnectionReset", "e:BrokenPipe"])
+                            for _ in range(rng.randint(1, 4))]
+                    ops.append("wplan %s %s" % (c, ",".join(plan)))
+                elif r < 0.9:
+                    t = rng.choice(topics)
+                    ops += feed(c, [[rng.choice([b"\x01", b"\x00", b"\x00", b"\x02"]) + t]] if rng.random() < 0.85 else [[b"\x01" + t, b"x"]])
+                else:
+                    ops.append("wire " + c)
+            for c in names:
+                ops += ["wire " + c, "dropped " + c]
+            out.append("f%d sock %s / %s" % (k, sock, " / ".join(ops)))
+            k += 1
     return out
 
 
 def compare_filter(line):
-    return line.split()[1] == "ts"
+    return line.split()[1] == "ts" or line.startswith("f")
+
+
+def model_cases(case_lines):
+    out = []
+    for line in case_lines:
+        if not line.startswith("f"):
+            out.append(line)
+            continue
+        parts = [p.split() for p in line.split(" / ")]
+        ops = []
+        for op in parts[1:]:
+            if op[0] == "attach":
+                ops.append("attach " + op[1])
+            elif op[0] == "feed":
+                msgs, cur = [], []
+                for fl, body in scen.parse_frames_prefix(W.untok(op[2])):
+                    cur.append(body)
+                    if not fl & 1:
+                        msgs.append(cur)
+                        cur = []
+                ops += ["sub %s %s" % (op[1], ";".join(W.tok(f) for f in m)) for m in msgs]
+            elif op[0] == "wmode":
+                m = op[2]
+                a = "a" if m == "all" else "p" if m == "stall" else "z" if m == "zero" else "w" + m[6:] if m.startswith("limit=") else "e:" + m.split("=")[1]
+                ops.append("mode %s %s" % (op[1], a))
+            elif op[0] == "wplan":
+                ops.append("plan %s %s" % (op[1], op[2]))
+            elif op[0] == "send":
+                ops.append("pub " + op[1])
+            elif op[0] in ("wire", "dropped"):
+                ops.append("%s %s" % (op[0], op[1]))
+        out.append("%s pubfan / %s" % (parts[0][0], " / ".join(ops)))
+    return out
 
 
 def norm_impl(o, line):
+    if line.startswith("f"):
+        keep = []
+        for t in o.split():
+            if t.startswith("wire:"):
+                name, hx = t.split("=", 1)
+                b = bytes.fromhex(hx) if hx != "-" else b""
+                keep.append("%s=%d:%08x" % (name, len(b), fnv(b)))
+            elif t.startswith("dropped:"):
+                name, fl = t.split("=", 1)
+                keep.append("%s=%s" % (name, "w" if "w" in fl else "-"))
+            elif t.startswith("s="):
+                keep.append(t)
+        return " ".join(keep)
     return " ".join(t for t in o.split() if not t.startswith("calls="))
 
 
@@ -106,6 +206,8 @@ def judge(line, obs, orc):
             if any(r != "ok" for r in res) or kv["buffered"] != "0":
                 return "an accepting connection missed a message or kept bytes buffered"
         return None
+    if sp[0].startswith("f"):
+        return fan_judge(line, obs)
     # real publisher
     slow = sp[0].split(".")[1]
     t, po = S.pair_ops_obs(line, obs)
@@ -139,6 +241,54 @@ def judge(line, obs, orc):
                 # must be the beginning of one more published message
                 if not any(W.msg(m).startswith(tail) for m in sends):
                     return "slow subscriber's stream ends in bytes that are not the start of a published message"
+    return None
+
+
+def fan_judge(line, obs):
+    """Property oracle for the fan-out cases, independent of the model: publishing always succeeds at once; what a
+    subscriber's connection got is a prefix of a stream of whole messages forming an order-preserving subsequence of the
+    published messages that matched one of its subscriptions at that time (subscriptions tracked here, separately);
+    a subscriber whose connection always accepted got exactly all of them."""
+    t, po = S.pair_ops_obs(line, obs)
+    subs, got, matched, touched = {}, {}, {}, set()
+    for op, tk in po:
+        if op[0] == "attach":
+            subs[op[1]], got[op[1]], matched[op[1]] = [], b"", []
+        elif op[0] == "feed":
+            cur = []
+            for fl, body in scen.parse_frames_prefix(W.untok(op[2])):
+                cur.append(body)
+                if not fl & 1:
+                    if len(cur) == 1 and cur[0][:1] == b"\x01":
+                        subs[op[1]].append(cur[0][1:])
+                    elif len(cur) == 1 and cur[0][:1] == b"\x00" and cur[0][1:] in subs[op[1]]:
+                        subs[op[1]].remove(cur[0][1:])
+                    cur = []
+        elif op[0] in ("wmode", "wplan"):
+            touched.add(op[1])
+        elif op[0] == "send":
+            if tk != "s=ok":
+                return "publishing did not return promptly with success: " + str(tk)
+            fr = S.frames_of_tok(op[1])
+            for c in subs:
+                if any(fr[0].startswith(x) for x in subs[c]):
+                    matched[c].append(W.msg(fr))
+        elif op[0] == "wire":
+            hx = tk.split("=", 1)[1]
+            got[op[1]] += bytes.fromhex(hx) if hx != "-" else b""
+    for c in got:
+        if c not in touched:
+            if got[c] != b"".join(matched[c]):
+                return "subscriber %s, whose connection accepted every write, missed or received altered messages" % c
+            continue
+        rest, j = got[c], 0
+        while rest:
+            while j < len(matched[c]) and not (rest.startswith(matched[c][j]) or matched[c][j].startswith(rest)):
+                j += 1
+            if j == len(matched[c]):
+                return "subscriber %s's stream is not an order-preserving sequence of whole matching messages" % c
+            rest = rest[len(matched[c][j]):]
+            j += 1
     return None
 
 
